@@ -16,6 +16,7 @@ ExtensionNode, ValueNode: encode/decode) is a deep copy.
 import Verif.Lemmas.StateCachePrivacy
 import Verif.Lemmas.StateCachePublish
 import Verif.Lemmas.StateCacheHeap
+import Verif.Lemmas.StateCacheRecommit
 import Verif.Gen.StateCacheFacts
 namespace Verif.Props.C07
 open Verif.SC
@@ -42,6 +43,68 @@ theorem privacy_block (s : Sys H K B V) (h : H) (w : Op H K B V)
     (ops : List (Op H K B V)) (hother : AvoidsBlk h s ops) :
     ((s.step w).1.run ops).2 = (s.run ops).2 :=
   Sys.run_blkEq (BlkEq.of_write h s w hw) ops hother
+
+/-- `second_commit_is_noop`: a `Commit()` of a block whose link is present — a second `Commit()` through the same block
+    cache after further `Set`s, or the commit of a second block cache with the same hash — is rejected: the operation
+    returns normally, every block cache (including the committing one: its pending map and `committed` flag are kept) and
+    every transaction cache is unchanged, no entry and no link of the state cache changes (only the recency of the block's
+    link), and the specification tree stays the same (first commit wins). -/
+theorem second_commit_is_noop (s : Sys H K B V) (T : Tree K B V) (h : H) (bc : BC K B V) (p : B)
+    (hb : alookup s.bcs h = some bc) (hl : linkAt s.sc bc.hash = some p) (hT : T.find bc.hash ≠ none) :
+    (s.step (.bcommit h)).2 = .ok ∧
+    (∀ h', alookup (s.step (.bcommit h)).1.bcs h' = alookup s.bcs h') ∧
+    (s.step (.bcommit h)).1.tcs = s.tcs ∧
+    (∀ k b, entryAt (s.step (.bcommit h)).1.sc k b = entryAt s.sc k b) ∧
+    (∀ b, linkAt (s.step (.bcommit h)).1.sc b = linkAt s.sc b) ∧
+    s.treeStep T (.bcommit h) = T := by
+  have hs : s.step (.bcommit h) = ({ s with sc := s.sc.touchLink bc.hash, bcs := aset s.bcs h bc }, .ok) := by
+    simp only [Sys.step, hb, BC.commit_linked s.sc bc hl]
+  rw [hs]
+  refine ⟨rfl, fun h' => ?_, rfl, fun k b => rfl, fun b => SC.touchLink_linkAt _ _ _, ?_⟩
+  · simp only; rw [alookup_aset]
+    by_cases hh : h = h'
+    · subst hh; simp [hb]
+    · simp [hh]
+  · simp only [Sys.treeStep, hb, Tree.commit]
+    cases hf : T.find bc.hash with
+    | none => exact absurd hf hT
+    | some x => rfl
+
+/-- after any history without eviction the premise of `second_commit_is_noop` holds for every block that is in the tree:
+    its link is present -/
+theorem committed_blocks_are_linked (capK maxDepth : Nat) (ops : List (Op H K B V))
+    (hne : NoEviction (Sys.new capK maxDepth) ops) (b : B) (x : Blk K B V)
+    (hx : ((Sys.new capK maxDepth : Sys H K B V).treeRun [] ops).find b = some x) :
+    linkAt ((Sys.new capK maxDepth : Sys H K B V).run ops).1.sc b = some x.prev :=
+  ((Sys.run_inv (Sys.new capK maxDepth : Sys H K B V) ops (SysInv.init capK maxDepth) hne).inv.link_of_find hx)
+
+/-- `late_writes_stay_private`: writes made into a block cache `h` — also after its commit: `Set`, a transaction commit
+    into it, writes into a transaction on it — change no output of any later history that goes through `h` only by
+    `Commit()` calls the link check rejects (second commits of the already committed block): no other block cache, no
+    transaction on another block, no state or query lookup at any block, no later commit ever sees them. -/
+theorem late_writes_stay_private (s : Sys H K B V) (h : H) (w : Op H K B V)
+    (hw : (∃ k v, w = .bset h k v) ∨ (∃ t, w = .tcommit t ∧ ∃ tc, alookup s.tcs t = some tc ∧ tc.main = .block h)
+        ∨ (∃ t k v, w = .tset t k v ∧ ∃ tc, alookup s.tcs t = some tc ∧ tc.main = .block h)
+        ∨ (∃ t k, w = .trem t k ∧ ∃ tc, alookup s.tcs t = some tc ∧ tc.main = .block h))
+    (ops : List (Op H K B V)) (hother : AvoidsBlkButRecommit h s ops) :
+    ((s.step w).1.run ops).2 = (s.run ops).2 :=
+  Sys.run_blkEq2 (BlkEq2.of_write h s w hw) ops hother
+
+/-- through the handle itself the late writes are visible — own writes first: a `Set` on a block cache (committed or
+    not) is what its own `Get` and the `Get` of a transaction cache on it (without a pending entry of its own) return -/
+theorem late_writes_visible_through_handle (s : Sys H K B V) (h : H) (bc : BC K B V) (k : K) (v : V)
+    (hb : alookup s.bcs h = some bc) :
+    ((s.step (.bset h k v)).1.step (.bget h k)).2 = .hit v ∧
+    ∀ t tc, alookup s.tcs t = some tc → tc.main = .block h → alookup tc.cache k = none →
+      ((s.step (.bset h k v)).1.step (.tget t k)).2 = .hit v := by
+  have hs : (s.step (.bset h k v)).1 = { s with bcs := aset s.bcs h (bc.set k v) } := by simp only [Sys.step, hb]
+  have hl : alookup (aset s.bcs h (bc.set k v)) h = some (bc.set k v) := by rw [alookup_aset]; simp
+  have hc : alookup (bc.set k v).cache k = some (.val v) := by unfold BC.set; simp only; rw [alookup_aset]; simp
+  rw [hs]
+  constructor
+  · simp only [Sys.step, hl, BC.get, hc]; rfl
+  · intro t tc ht hm hn
+    simp only [Sys.step, ht, hn, hm, hl, BC.get, hc]; rfl
 
 /-- `publish`: after any history without eviction, a lookup (at the transaction, block, query or state layer) whose
     context has no pending entry for the key and whose chain reaches, within `maxDepth` parent steps through committed
@@ -118,6 +181,15 @@ example :
        .ok, .hit 7, .hit 1, .hit 1, .hit 1, .miss,
        .ok, .hit 7, .hit 7, .hit 1, .miss,
        .ok, .ok, .hit 7, .hit 7, .hit 1] := by decide
+
+/-- a block cache commits, is written again and committed again: the late write is visible through the handle and through
+    a transaction on it, never through the state, a child block cache or a second handle of the same hash whose own commit
+    is rejected and whose pending write stays private too -/
+example :
+    ((Sys.new 200 2000 : Sys Nat Nat Nat Nat).run
+      [.blk 1 11 0, .bset 1 0 1, .bcommit 1, .bset 1 0 9, .bcommit 1, .bget 1 0, .sget 0 11, .txn 20 1, .tget 20 0,
+       .blk 2 12 11, .bget 2 0, .blk 3 11 0, .bset 3 0 8, .bcommit 3, .bget 3 0, .sget 0 11, .bget 2 0]).2
+    = [.ok, .ok, .ok, .ok, .ok, .hit 9, .hit 1, .ok, .hit 9, .ok, .hit 1, .ok, .ok, .ok, .hit 8, .hit 1, .hit 1] := by decide
 
 /-- the client mutates a value after handing it in and another one after receiving it; lookups are unaffected -/
 example :
